@@ -65,6 +65,26 @@ def main():
                 bad.append(i)
         return bad
 
+    if kind == "obs":
+        out = run(spec["inputs"])
+        if out["outcome"] != "ok":
+            if spec.get("label") == "<raise>":
+                yes("harness raises %r on %s" % (out["exc"], spec["inputs"]))
+            no("run raised %r" % (out["exc"],))
+        bad = []
+        for label, c in out["result"]:
+            if type(c) is tuple and c[0] == "eq":
+                okc = (c[1] == c[2])
+            elif type(c) is tuple and c[0] == "cong":
+                okc = ((c[1] - c[2]) % P == 0)
+            else:
+                okc = bool(c)
+            if not okc:
+                bad.append(label)
+        if bad:
+            yes("claims %s fail on inputs %s" % (bad[:4], spec["inputs"]))
+        no("all claims hold")
+
     if kind == "c01":
         out = run(spec["inputs"])
         if out["outcome"] != "ok":
